@@ -104,6 +104,7 @@ def resolve_syntatic_sugar(a: ast.AST) -> ast.AST:
                     f"Too many arguments for dataclass {a.func.value} - {ast.unparse(node)}."
                 )
 
+            n_positional = len(a.args)
             arg_values = a.args
             arg_names = [ast.Constant(value=n) for n in sig_arg_names[: len(arg_values)]]
             arg_lookup = {a.arg: a.value for a in a.keywords}
@@ -118,6 +119,12 @@ def resolve_syntatic_sugar(a: ast.AST) -> ast.AST:
                     raise ValueError(
                         f"Argument {name} not found in dataclass {a.func.value}"
                         f" - {ast.unparse(node)}."
+                    )
+                if name in sig_arg_names[:n_positional]:
+                    assert isinstance(a.func, ast.Constant)
+                    raise ValueError(
+                        f"Argument {name} given twice (by position and by name) for dataclass "
+                        f"{a.func.value} - {ast.unparse(node)}."
                     )
 
             return ast.Dict(
